@@ -20,14 +20,18 @@ FieldOps  == {"subst_value", "subst_ts", "subst_sig", "trunc", "extend", "ts_edi
 PairOps   == {"splice_fields"}                        \* pieces of two valid cookies recombined at the field separators
 NameOps   == {"transplant_name", "transplant_prefixed"}  \* value moved to another cookie name the proxy reads (as is / with the name suffix prepended)
 PartOps   == {"parts_drop", "parts_dup", "parts_permute", "parts_recombine"}
-Ops(c) == FieldOps \cup PairOps \cup NameOps \cup (IF Split(c) THEN PartOps ELSE {})
+\* values the proxy never produced: the signed envelope removed (payload alone, decoded or not, re-encoded), and a cookie the
+\* attacker planted in the browser BEFORE the login (hand-made ticket / payload): neither may ever load as a session
+ForeignOps == {"strip_envelope", "planted"}
+Ops(c) == FieldOps \cup PairOps \cup NameOps \cup ForeignOps \cup (IF Split(c) THEN PartOps ELSE {})
 
 VARIABLE c
 Init == \E cr \in Creds, sf \in SecretForms : \E op \in Ops(cr) : c = [cred |-> cr, op |-> op, secret |-> sf, stride |-> Stride]
 Next == UNCHANGED c
 
 \* whatever the instance: rejected, or exactly the issued credential; nothing recoverable in clear
-CaseRec == [fam |-> "tamper", in |-> c, req |-> [acceptedDifferent |-> 0, leak |-> FALSE, instances |-> [ge |-> 1], panic |-> FALSE]]
+CaseRec == [fam |-> "tamper", in |-> c, req |-> [acceptedDifferent |-> 0, leak |-> FALSE, instances |-> [ge |-> 1], panic |-> FALSE]
+                                              @@ (IF c.op \in ForeignOps THEN [accepted |-> 0] ELSE <<>>)]
 EmitVocab == JsonSerialize("vocab.json", Vocab)
 EmitCase  == CSVWrite("%1$s", <<ToJson(CaseRec)>>, "cases.ndjson")
 =============================================================================
